@@ -386,6 +386,18 @@ package writer
 //@   props C01
 //@   privatecaptures
 //@   ensures [index-advanced-once-per-element] implies(*finalErr == nil, *i == old(*i) + 1)
+//@   site call parseSingleString #2:
+//@     assert [raw-bytes-stored-only-without-escapes] forall(k, 0, len(value), value[k] != 92)
+//@ end
+
+// C01 (the value returned is the value sent): a JSON string is stored as the
+// bytes between its quotes only when those bytes contain no escape sequence;
+// any backslash (at any position, the first byte included) sends the value
+// through jsonparser.Unescape first.  Same rule in the array flattener above.
+//@ func ParseRawJsonObject$1
+//@   props C01
+//@   site call parseSingleString #2:
+//@     assert [raw-bytes-stored-only-without-escapes] forall(k, 0, len(value), value[k] != 92)
 //@ end
 
 // C03 (persistent-query results equal a raw search): the ingest-time matcher
@@ -424,4 +436,21 @@ package writer
 //@   ensures [every-past-record-filled] result == uint32(recNum) && colWip.cbufidx == old(colWip.cbufidx) + uint32(recNum)
 //@   loop 1:
 //@     invariant i <= recNum && colWip.cbufidx == old(colWip.cbufidx) + uint32(i) && colWip.deData == old(colWip.deData) && colWip.deData.deCount == old(colWip.deData.deCount)
+//@ end
+
+// read-only accessors of a parsed event (frames and results PROVED)
+//@ func (*ParsedLogEvent).GetIndexName
+//@   props C15
+//@   pure
+//@   ensures result == ple.indexName
+//@ end
+//@ func (*ParsedLogEvent).GetTimestamp
+//@   props C15 C16
+//@   pure
+//@   ensures result == ple.timestampMillis
+//@ end
+//@ func (*ParsedLogEvent).GetRawJson
+//@   props C15 C16
+//@   pure
+//@   ensures samebase(result, ple.rawJson) && len(result) == len(ple.rawJson)
 //@ end
